@@ -433,25 +433,48 @@ def ignore_grads(case):
       'm1': {'w': jnp.array([1., 2.]), 'b': jnp.array(0.5)},
       'm2': {'w': jnp.array([[1., -1.]]), 'b': jnp.array([3.])}})
   opt = fedjax.optimizers.ignore_grads_haiku(base, list(nt))
-  st, p = opt.init(params), params
-  tr = {m: {k: v for k, v in d.items() if (m, k) not in nt} for m, d in params.items()}
-  tr = {m: d for m, d in tr.items() if d} if case.get('drop_empty') else tr
-  rst, rp = base.init(tr), tr
+  # ONE wrapped optimizer object serves several models, interleaved: the full model, a head-only variant that lacks module
+  # m1 (other shapes), and a body-only variant that lacks m2 - init() of one must not disturb the steps of another
+  models = [params]
+  if case.get('multi', True):
+    models += [hk.data_structures.to_immutable_dict({'m2': {'w': jnp.array([[2., .5, 1.]]), 'b': jnp.array([1., 2.])}}),
+               hk.data_structures.to_immutable_dict({'m1': {'w': jnp.array([4., -3.]), 'b': jnp.array(-1.5)}}),
+               hk.data_structures.to_immutable_dict({'m1': {'w': jnp.array([4., -3., 1.]), 'b': jnp.array(-1.5)},
+                                                     'm2': {'w': jnp.array([[0.5], [2.]]), 'b': jnp.array([1., 1.])}})]
+  runs = []
+  for mp in models:
+    tr = {m: {k: v for k, v in d.items() if (m, k) not in nt} for m, d in mp.items()}
+    tr = {m: d for m, d in tr.items() if d} if case.get('drop_empty') else tr
+    runs.append({'params': mp, 'st': None, 'p': mp, 'rst': base.init(tr), 'rp': tr})
+  for r in runs:            # every model is initialised before any of them steps
+    r['st'] = opt.init(r['params'])
+  evals = 0
+  # a model that lacks one of the named entries can be initialised (no entry to blank out) but not stepped (apply looks the
+  # named entries up): such models are only (re-)initialised, before every step of the others
+  can_step = [all(m in r['params'] and k in r['params'][m] for m, k in nt) for r in runs]
   for step in range(3):
-    grads = jax.tree_util.tree_map(lambda x: x * (0.5 + step) + 1 - step, params)
-    st, p = opt.apply(grads, st, p)
-    g = {m: {k: grads[m][k] for k in d} for m, d in rp.items()}
-    rst, rp = base.apply(g, rst, rp)
-    for (m, k) in NAMES:
-      if (m, k) in nt:
-        a, b = np.asarray(p[m][k]), np.asarray(params[m][k])
-        require(a.dtype == b.dtype and a.tobytes() == b.tobytes(), 'ignored parameter %s/%s is not bit-identical after '
-                'step %d' % (m, k, step + 1), b.tolist(), a.tolist())
-      else:
-        require(bool(np.allclose(np.asarray(p[m][k]), np.asarray(rp[m][k]), rtol=1e-6, atol=1e-7)),
-                'trainable parameter %s/%s differs from the base optimizer run on the trainable sub-tree (step %d)'
-                % (m, k, step + 1), np.asarray(rp[m][k]).tolist(), np.asarray(p[m][k]).tolist())
-  return {'evals': 3, 'nontrivial': 0 < len(nt) < 4, 'outcome': [case['base'], len(nt)]}
+    for mi, r in enumerate(runs):
+      if not can_step[mi]:
+        opt.init(r['params'])
+        continue
+      mp = r['params']
+      grads = jax.tree_util.tree_map(lambda x: x * (0.5 + step) + 1 - step, mp)
+      r['st'], r['p'] = opt.apply(grads, r['st'], r['p'])
+      g = {m: {k: grads[m][k] for k in d} for m, d in r['rp'].items()}
+      r['rst'], r['rp'] = base.apply(g, r['rst'], r['rp'])
+      for (m, k) in NAMES:
+        if m not in mp:
+          continue
+        if (m, k) in nt:
+          a_, b_ = np.asarray(r['p'][m][k]), np.asarray(mp[m][k])
+          require(a_.dtype == b_.dtype and a_.tobytes() == b_.tobytes(), 'ignored parameter %s/%s of model %d is not bit-identical after '
+                  'step %d' % (m, k, mi, step + 1), b_.tolist(), a_.tolist())
+        else:
+          require(bool(np.allclose(np.asarray(r['p'][m][k]), np.asarray(r['rp'][m][k]), rtol=1e-6, atol=1e-7)),
+                  'trainable parameter %s/%s of model %d differs from the base optimizer run on the trainable sub-tree (step %d)'
+                  % (m, k, mi, step + 1), np.asarray(r['rp'][m][k]).tolist(), np.asarray(r['p'][m][k]).tolist())
+      evals += 1
+  return {'evals': evals, 'nontrivial': 0 < len(nt) < 4, 'outcome': [case['base'], len(nt)]}
 
 
 SUBS = {'agnostic': agnostic, 'apfl': apfl, 'hyp': hyp, 'mimelite': mimelite, 'ignore_grads': ignore_grads, 'hyp_eval': hyp_eval}
